@@ -1,5 +1,16 @@
 (** * Flow_drop: the flow facts (Flow.v, [stage_flow]) of the two operators that drop data and
-      answer every dropped datum with a Pull of their own: filter and skip. *)
+      answer every dropped datum with a Pull of their own: filter and skip.
+
+    Both proofs have the same shape.  A small invariant ([FJ] / [SJ]) is carried over [reach]:
+      - [pout + dout = pin + din] in EVERY reachable configuration (not only at rest): a Pull
+        received is forwarded, a datum received is forwarded or answered by a Pull, all in the
+        same activation; the panic branches are excluded because the master invariant of
+        Inv_filter.v / Inv_skip.v says the next configuration is not dead;
+      - [hout <= hin];
+      - [subd 0 = true -> us 0 <> UNone] (the subscription is forwarded in the same activation
+        and an upstream never becomes [UNone] again).
+    [sf_wait], [sf_live], [sf_fin] then follow from [i_pair] of the Inv files; they do not need
+    [stack c = []].  [late_ok p] is not constrained. *)
 From CB Require Import ProofLib Spec Flow Inv_filter Inv_skip.
 
 Set Implicit Arguments.
